@@ -194,10 +194,22 @@ def probe_variant(ctx):
     try:
         variant, how = int(open(os.path.join(outdir, "variant.txt")).read().strip()), "probed"
     except Exception:
-        ctx.notes.append("variant probe failed; falling back to the registered constant")
+        # fail closed: a tree that could not be probed must not be checked against an assumed model
+        ctx.violation("driver-failed", "variant probe", "TestVerifC06Probe wrote no variant.txt; go test said: " + out[-1200:],
+                      no_input=True)
         variant, how = VARIANT, "constant"
+    if rc != 0:
+        ctx.violation("driver-failed", "variant probe / tables", f"go test exit {rc}: " + out[-1200:], no_input=True)
+    ctx.witness = {}
+    try:
+        for ln in open(os.path.join(outdir, "witness.txt")).read().splitlines():
+            b, _, line = ln.partition("\t")
+            ctx.witness[int(b)] = line
+    except Exception:
+        pass
     if "VERIF_C06_VARIANT" in os.environ:
         variant, how = VARIANT, "env"
+        ctx.assumptions.append(f"model variant {variant} forced by VERIF_C06_VARIANT (the probe of the tree was overridden)")
     try:
         lines = open(os.path.join(outdir, "tables.txt")).read().splitlines()
         core.write_generated("OllamaVerif/Generated/C06_Tables.lean", lean_tables(lines, variant))
@@ -231,6 +243,20 @@ def coverage_required(ctx):
     missing = [c for c in REQUIRED_COUNTERS if not ctx.stats.get(c)]
     ctx.coverage["model_branches_required"] = len(REQUIRED_COUNTERS)
     ctx.coverage["model_branches_missing"] = missing
+    # floors on the share of the run the property monitors actually judge (L1 is exact regardless)
+    st = ctx.stats
+    gen = st.get("gen_valid", 0) + st.get("gen_defrag", 0) + st.get("gen_wild", 0)
+    floors = {
+        "histories_off_contract_share": (st.get("histories_off_contract", 0) / max(1, gen), "<=", 0.15),
+        "tokens_judged_share": (st.get("tokens_judged", 0) / max(1, st.get("tokens_observed", 0)), ">=", 0.70),
+        "window_misuse_skip_share": (st.get("l2_skip_window_misuse", 0) / max(1, st.get("tokens_judged", 0)), "<=", 0.02),
+    }
+    ctx.coverage["l2_floors"] = {k: round(v[0], 4) for k, v in floors.items()}
+    bad = [f"{k}={v[0]:.3f} (must be {v[1]} {v[2]})" for k, v in floors.items()
+           if (v[1] == "<=" and v[0] > v[2]) or (v[1] == ">=" and v[0] < v[2])]
+    if bad:
+        ctx.violation("correspondence-coverage", "", "the property monitors judge too small a share of the run: " + ", ".join(bad),
+                      no_input=True)
     if missing:
         ctx.violation("correspondence-coverage", "", "branches of the model never exercised on the real code in this run: "
                       + ", ".join(missing), no_input=True)
@@ -244,11 +270,16 @@ def run(ctx):
     ctx.coverage["model_variant_expected"] = VARIANT
     lost = [BIT_NAMES[b] for b in BIT_NAMES if (VARIANT & b) and not (variant & b)]
     if lost:
-        # a repair that this tree is expected to carry is gone: the model follows the tree (L1 stays
-        # exact) and the L2 monitors report the defect with concrete inputs (its finding is no longer
-        # "known", so it is a violation)
+        # a repair that this tree is expected to carry is gone = a regression of a fixed finding.  It is
+        # reported as a violation whose input is the finding's witness history (replayable); the model
+        # follows the probed tree so that L1 stays exact and the L2 monitors add concrete generated inputs.
         core.log(f"[C06] tree lacks expected repair(s): {', '.join(lost)}")
         ctx.coverage["repairs_missing_in_tree"] = lost
+        for b in BIT_NAMES:
+            if (VARIANT & b) and not (variant & b):
+                ctx.violation("repair-missing", getattr(ctx, "witness", {}).get(b, ""),
+                              f"the tree no longer carries the repair of {BIT_NAMES[b]}: the real code, run on this "
+                              f"witness history by TestVerifC06Probe, shows the pinned (defective) behaviour")
     env = {"VERIF_N": ctx.scale(2500, 60000), "VERIF_EXH_DEPTH": ctx.scale(3, 5),
            "VERIF_C06_VARIANT": variant, "VERIF_CORPUS": os.path.join(core.ROOT, "corpus", "C06")}
     if ctx.replay:
